@@ -28,7 +28,8 @@ BOUNDS = {
 ASSUMPTIONS = ["floats modelled as exact reals",
                "CONTRACT STUB for the C routine multitap: tapers arbitrary reals, tapsum[i] = sum_n t[i,n]; tapsum[i] != 0 for even i and t[i,0] != 0 for odd i "
                "(otherwise the sign convention is undefined); the clauses sum_n t[i,n]^2 = N (mydpss.c: rms 1) and sum_n t[i,n] t[j,n] = 0 (distinct eigenvectors) "
-               "are the HYPOTHESES of the unit-energy / orthogonality claims only - every other claim holds for arbitrary buffers",
+               "enter only through substitution: the checks decide, for ARBITRARY buffers, that a column's energy is the taper's energy / N and that the inner products "
+               "of columns are those of the tapers / N; unit energy and orthogonality of the columns then follow from the two contract clauses",
                "numpy.sinc on the concrete lag grid: one uninterpreted real per lag (the identity holds for every value of the kernel entries); "
                "numpy.sqrt(N): the positive root of s^2 = N", "scipy.fftpack fft/ifft = DFT definition with exact twiddles"]
 OUTSIDE = ["everything the C routine is responsible for: that the tapers are the leading eigenvectors of the sinc kernel / agree with an independent "
@@ -173,25 +174,25 @@ def _claims(h, N, k, W, out, eig, t, kern):
             h.claim_eq("col%d[%d]^2 * N = t^2" % (i, n), out[n, i] * out[n, i] * N, t[i][n] * t[i][n])
             if n:
                 h.claim_eq("col%d proportional to taper %d (sample %d)" % (i, i, n), out[n, i] * t[i][0], out[0, i] * t[i][n])
-        # orthonormal columns, each from the one clause of the C contract it rests on (the contract clause is the
-        # hypothesis of the claim; in replay the real C output is used and the conclusion is evaluated directly)
+        # orthonormal columns: as identities that hold for ARBITRARY buffers - the column's energy is the taper's
+        # energy / N and the inner products are those of the tapers / N - from which the C contract (rms 1, distinct
+        # eigenvectors orthogonal) gives unit energy and orthogonality by substitution
         nrm, tn = 0, 0
         for n in range(N):
             nrm = nrm + out[n, i] * out[n, i]
             tn = tn + t[i][n] * t[i][n]
-        if h.is_sym():
-            h.claim_true("col%d unit energy (given rms(taper %d) = 1)" % (i, i), SymBool.any([tn != N, nrm == 1]))
-        else:
-            h.claim_eq("col%d unit energy (given rms(taper %d) = 1)" % (i, i), nrm, 1)
+        h.claim_eq("col%d energy * N = energy of taper %d (rms 1 => unit energy)" % (i, i), nrm * N, tn)
+        if not h.is_sym():
+            h.claim_eq("col%d unit energy (real library)" % i, nrm, 1)
         for j in range(i):
             dot, td = 0, 0
             for n in range(N):
                 dot = dot + out[n, i] * out[n, j]
                 td = td + t[i][n] * t[j][n]
-            if h.is_sym():
-                h.claim_true("col%d orthogonal to col%d (given tapers %d, %d orthogonal)" % (i, j, i, j), SymBool.any([td != 0, dot == 0]))
-            else:
-                h.claim_eq("col%d orthogonal to col%d (given tapers %d, %d orthogonal)" % (i, j, i, j), dot, 0)
+            h.claim_eq("(col%d . col%d * N)^2 = (taper %d . taper %d)^2 (orthogonal tapers => orthogonal columns)" % (i, j, i, j),
+                       (dot * N) * (dot * N), td * td)
+            if not h.is_sym():
+                h.claim_eq("col%d orthogonal to col%d (real library)" % (i, j), dot, 0)
         # sign convention
         if i % 2 == 0:
             sm = 0
